@@ -85,6 +85,20 @@ def install_common(eng):
     def fmt_errorf(e, a, ins):
         return Iface('*errors.errorString', Opaque('error', msg='fmt:' + str(a[0])))
 
+    def bytes_equal(e, a, ins):
+        # bytes.Equal compares with an early exit (memequal): with secret contents that is a data-dependent branch
+        x, y = a
+        lx, ly = force(x.len), force(y.len)
+        if isinstance(lx, int) and isinstance(ly, int) and lx != ly:
+            return False
+        xs, ys = [force(c) for c in e.slice_list(x)], [force(c) for c in e.slice_list(y)]
+        if all(isinstance(c, int) for c in xs + ys):
+            return xs == ys
+        if getattr(e, 'taint', False):
+            e.taint_event('symbranch', 'bytes.Equal on secret data (early-exit comparison)')
+            return z3.Bool('secret_bool')
+        return simp(z3.And(*[tobv(p, 8) == tobv(q, 8) for p, q in zip(xs, ys)]))
+    reg('bytes.Equal', bytes_equal)
     reg('errors.New', errors_new)
     reg('fmt.Errorf', fmt_errorf)
     reg('fmt.Printf', lambda e, a, ins: (0, None))
